@@ -3,126 +3,6 @@ From Refinery Require Import Lib.Base Model.TraceKey.
 From Refinery Require Gen.GenC11.
 From Coq Require Import ZifyN ZifyNat ZifyBool Permutation Sorted.
 
-(* ---------- string equality ---------- *)
-Lemma str_eqb_eq a b : str_eqb a b = true <-> a = b.
-Proof.
-  unfold str_eqb. revert b. induction a as [|x a IH]; destruct b as [|y b]; cbn [list_eqb];
-    try (split; [discriminate|discriminate]); [split; reflexivity|].
-  rewrite andb_true_iff, N.eqb_eq, IH. split; [intros [-> ->]; reflexivity|intros [= -> ->]; auto].
-Qed.
-Lemma str_eqb_refl a : str_eqb a a = true.
-Proof. apply str_eqb_eq. reflexivity. Qed.
-Lemma str_eqb_neq a b : str_eqb a b = false <-> a <> b.
-Proof.
-  split.
-  - intros H E. apply str_eqb_eq in E. congruence.
-  - intros H. destruct (str_eqb a b) eqn:E; [apply str_eqb_eq in E; contradiction|reflexivity].
-Qed.
-
-Lemma mem_str_In x l : mem_str x l = true <-> In x l.
-Proof.
-  induction l as [|y r IH]; cbn [mem_str In]; [split; [discriminate|intros []]|].
-  rewrite orb_true_iff, IH, str_eqb_eq. split; intros [H|H]; auto.
-Qed.
-
-(* ---------- lexicographic order ---------- *)
-Lemma str_leb_total a b : str_leb a b = true \/ str_leb b a = true.
-Proof.
-  revert b. induction a as [|x a IH]; destruct b as [|y b]; cbn [str_leb]; auto.
-  destruct (x <? y)%N eqn:E1; [auto|]. destruct (y <? x)%N eqn:E2; [auto|]. apply IH.
-Qed.
-
-Lemma str_leb_antisym a b : str_leb a b = true -> str_leb b a = true -> a = b.
-Proof.
-  revert b. induction a as [|x a IH]; destruct b as [|y b]; cbn [str_leb]; try discriminate; auto.
-  destruct (x <? y)%N eqn:E1; destruct (y <? x)%N eqn:E2; try discriminate.
-  - apply N.ltb_lt in E1. apply N.ltb_lt in E2. lia.
-  - apply N.ltb_ge in E1. apply N.ltb_ge in E2. intros H1 H2.
-    assert (x = y) by lia. subst. f_equal. apply IH; assumption.
-Qed.
-
-Lemma str_leb_trans a b c : str_leb a b = true -> str_leb b c = true -> str_leb a c = true.
-Proof.
-  revert b c. induction a as [|x a IH]; intros [|y b] [|z c]; cbn [str_leb]; try discriminate; auto.
-  destruct (x <? y)%N eqn:E1; destruct (y <? x)%N eqn:E2;
-  destruct (y <? z)%N eqn:E3; destruct (z <? y)%N eqn:E4;
-  destruct (x <? z)%N eqn:E5; destruct (z <? x)%N eqn:E6; try discriminate; auto;
-  repeat match goal with
-         | H : (_ <? _)%N = true |- _ => apply N.ltb_lt in H
-         | H : (_ <? _)%N = false |- _ => apply N.ltb_ge in H
-         end; try lia.
-  apply IH.
-Qed.
-
-(* ---------- insertion sort ---------- *)
-Definition sle (a b : str) : Prop := str_leb a b = true.
-
-Lemma sinsert_perm x l : Permutation (sinsert x l) (x :: l).
-Proof.
-  induction l as [|y r IH]; cbn [sinsert]; [apply Permutation_refl|].
-  destruct (str_leb x y); [apply Permutation_refl|].
-  eapply Permutation_trans; [apply perm_skip; exact IH|apply perm_swap].
-Qed.
-
-Lemma ssort_perm l : Permutation (ssort l) l.
-Proof.
-  induction l as [|x r IH]; cbn [ssort]; [constructor|].
-  eapply Permutation_trans; [apply sinsert_perm|apply perm_skip; exact IH].
-Qed.
-
-Lemma sinsert_sorted x l : StronglySorted sle l -> StronglySorted sle (sinsert x l).
-Proof.
-  induction l as [|y r IH]; cbn [sinsert]; intros H.
-  - constructor; constructor.
-  - inversion H as [|? ? Hr Hall]; subst.
-    destruct (str_leb x y) eqn:E.
-    + constructor; [exact H|]. constructor; [exact E|].
-      eapply Forall_impl; [|exact Hall]. intros z Hz. eapply str_leb_trans; [exact E|exact Hz].
-    + constructor; [apply IH; exact Hr|].
-      assert (sle y x) as Hyx by (destruct (str_leb_total x y) as [T|T]; [congruence|exact T]).
-      eapply Permutation_Forall; [apply Permutation_sym; apply sinsert_perm|].
-      constructor; assumption.
-Qed.
-
-Lemma ssort_sorted l : StronglySorted sle (ssort l).
-Proof. induction l as [|x r IH]; cbn [ssort]; [constructor|apply sinsert_sorted; exact IH]. Qed.
-
-Lemma sorted_perm_eq l1 : forall l2,
-  StronglySorted sle l1 -> StronglySorted sle l2 -> Permutation l1 l2 -> l1 = l2.
-Proof.
-  induction l1 as [|a l1 IH]; intros l2 S1 S2 P.
-  - apply Permutation_nil in P. subst. reflexivity.
-  - destruct l2 as [|b l2]; [apply Permutation_sym, Permutation_nil in P; discriminate|].
-    inversion S1 as [|? ? S1' A1]; inversion S2 as [|? ? S2' A2]; subst.
-    assert (a = b) as ->.
-    { assert (In a (b :: l2)) as Ha by (eapply Permutation_in; [exact P|left; reflexivity]).
-      assert (In b (a :: l1)) as Hb by (eapply Permutation_in; [apply Permutation_sym; exact P|left; reflexivity]).
-      destruct Ha as [->|Ha]; [reflexivity|]. destruct Hb as [->|Hb]; [reflexivity|].
-      rewrite Forall_forall in A1, A2.
-      apply str_leb_antisym; [apply A1; exact Hb|apply A2; exact Ha]. }
-    f_equal. apply IH; [assumption|assumption|]. eapply Permutation_cons_inv; exact P.
-Qed.
-
-Lemma ssort_perm_eq l1 l2 : Permutation l1 l2 -> ssort l1 = ssort l2.
-Proof.
-  intros P. apply sorted_perm_eq; [apply ssort_sorted|apply ssort_sorted|].
-  eapply Permutation_trans; [apply ssort_perm|].
-  eapply Permutation_trans; [exact P|apply Permutation_sym, ssort_perm].
-Qed.
-
-Lemma ssort_In x l : In x (ssort l) <-> In x l.
-Proof.
-  split; intros H; [eapply Permutation_in; [apply ssort_perm|exact H]|
-                    eapply Permutation_in; [apply Permutation_sym, ssort_perm|exact H]].
-Qed.
-
-Lemma ssort_nil l : ssort l = [] <-> l = [].
-Proof.
-  split; intros H.
-  - pose proof (ssort_perm l) as P. rewrite H in P. apply Permutation_nil in P. exact P.
-  - subst. reflexivity.
-Qed.
-
 (* ---------- uncapped distinct collection ---------- *)
 Lemma scan_u_In xs : forall seen y, In y (scan_u xs seen) <-> In y seen \/ In y xs.
 Proof.
@@ -422,6 +302,61 @@ Proof.
   destruct E as [E _]. intros f Hf x. rewrite <- !canon_In. rewrite (E f Hf). tauto.
 Qed.
 
+(* ---------- separation for root.-prefixed fields ---------- *)
+Fixpoint root_str (rfs : list str) (rs : span) : str :=
+  match rfs with
+  | [] => []
+  | f :: r => match sp_get f rs with
+              | Some v => render_root v ++ [COMMA] ++ root_str r rs
+              | None => root_str r rs
+              end
+  end.
+
+Lemma root_part_str rfs t rs : t_root t = Some rs -> fst (root_part rfs t) = root_str rfs rs.
+Proof.
+  intros Hr. unfold root_part. rewrite Hr.
+  induction rfs as [|f r IH]; cbn [fold_right root_str]; [reflexivity|].
+  destruct (sp_get f rs) as [v|]; [|exact IH]. cbn [fst]. f_equal. f_equal. exact IH.
+Qed.
+
+(* every root field present in the root span, its rendered value free of ',' *)
+Definition root_ok (rfs : list str) (rs : span) : Prop :=
+  forall f, In f rfs -> exists v, sp_get f rs = Some v /\ ~ In COMMA (render_root v).
+
+Lemma root_unique rs rs' rfs : forall Y Y',
+  root_ok rfs rs -> root_ok rfs rs' ->
+  root_str rfs rs ++ Y = root_str rfs rs' ++ Y' ->
+  (forall f, In f rfs -> option_map render_root (sp_get f rs) = option_map render_root (sp_get f rs')) /\ Y = Y'.
+Proof.
+  induction rfs as [|f r IH]; intros Y Y' H H' E; cbn [root_str] in E.
+  - split; [intros f []|exact E].
+  - destruct (H f (or_introl eq_refl)) as [v [Hv Hc]]. destruct (H' f (or_introl eq_refl)) as [v' [Hv' Hc']].
+    rewrite Hv, Hv' in E. rewrite <- !app_assoc in E. cbn [app] in E.
+    destruct (split_unique COMMA _ _ _ _ Hc Hc' E) as [Ev E2].
+    destruct (IH Y Y') as [IH1 IH2].
+    + intros g Hg. apply H. right. exact Hg.
+    + intros g Hg. apply H'. right. exact Hg.
+    + exact E2.
+    + split; [|exact IH2]. intros g [<-|Hg]; [rewrite Hv, Hv'; cbn [option_map]; rewrite Ev; reflexivity|apply IH1; exact Hg].
+Qed.
+
+(* equal keys force equal root values as well (all root fields present in both root spans,
+   values free of ','), whatever UseTraceLength is on each side *)
+Theorem build_separates_root fields uselen uselen' t t' rs rs' :
+  let nf := fst (prepare fields) in let rf := snd (prepare fields) in
+  (total_distinct nf t < MAXK)%N -> (total_distinct nf t' < MAXK)%N ->
+  all_present nf t -> all_present nf t' -> all_dfree nf t -> all_dfree nf t' ->
+  t_root t = Some rs -> t_root t' = Some rs' -> root_ok rf rs -> root_ok rf rs' ->
+  fst (build_gen None fields uselen t) = fst (build_gen None fields uselen' t') ->
+  forall f, In f rf -> option_map render_root (sp_get f rs) = option_map render_root (sp_get f rs').
+Proof.
+  intros nf rf C C' P P' D D' R R' K K' E.
+  rewrite !build_gen_nocap in E by assumption. fold nf rf in E. cbv zeta in E. cbn [fst] in E.
+  apply blocks_unique in E; try assumption. destruct E as [_ E].
+  rewrite (root_part_str rf t rs R), (root_part_str rf t' rs' R') in E.
+  apply root_unique in E; try assumption. apply E.
+Qed.
+
 (* the source has the fix: build = build_gen None *)
 Lemma init_prev_fixed : GenC11.first_value_always_written = true -> init_prev = None.
 Proof. unfold init_prev. intros ->. reflexivity. Qed.
@@ -474,7 +409,8 @@ Lemma gen_c11_ok :
   GenC11.cap_breaks_outer = true /\ GenC11.cap_counts_before_store = true /\
   GenC11.cap_is_max_key_length = true /\
   GenC11.add_switch = [["string"]; ["int"]; ["int64"]; ["float64"]; ["bool"]; ["nil"]; ["default"]]%string /\
-  GenC11.root_uses_percent_v = true /\ GenC11.len_is_span_count = true /\
+  GenC11.root_uses_same_rendering = true /\ GenC11.float_whole_as_int = true /\
+  GenC11.add_uses_append_value = true /\ GenC11.len_is_span_count = true /\
   GenC11.fields_sorted = true /\ GenC11.values_sorted = true /\
   GenC11.shape_dynamic = true /\ GenC11.shape_emadynamic = true /\ GenC11.shape_emathroughput = true /\
   GenC11.shape_windowedthroughput = true /\ GenC11.shape_totalthroughput = true.
@@ -500,3 +436,13 @@ Proof.
   intros nf C C' P P' D D' Hf Hx Hnx E.
   apply Hnx. eapply (build_separates_fixed fields uselen uselen t t'); eassumption.
 Qed.
+
+Theorem build_separates_root_fixed fields uselen uselen' t t' rs rs' :
+  let nf := fst (prepare fields) in let rf := snd (prepare fields) in
+  (total_distinct nf t < MAXK)%N -> (total_distinct nf t' < MAXK)%N ->
+  all_present nf t -> all_present nf t' -> all_dfree nf t -> all_dfree nf t' ->
+  t_root t = Some rs -> t_root t' = Some rs' -> root_ok rf rs -> root_ok rf rs' ->
+  fst (build fields uselen t) = fst (build fields uselen' t') ->
+  forall f, In f rf -> option_map render_root (sp_get f rs) = option_map render_root (sp_get f rs').
+Proof. unfold build. rewrite (init_prev_fixed eq_refl). apply build_separates_root. Qed.
+
